@@ -927,5 +927,6 @@ pub fn run_rewrite_str(cfg: &Value, input: &str) -> (Vec<Value>, Result<String, 
 }
 
 pub fn silence_panics() {
+    if std::env::var("VERIF_SHOW_PANICS").is_ok() { return; }
     std::panic::set_hook(Box::new(|_| {}));
 }
